@@ -66,9 +66,13 @@ def for_property(prop, tier="quick"):
     for name, m, patch in _variants(SEEDED):
         if m.get("property") == prop or prop in m.get("also_breaks", []):
             jobs.append(("breaking", name, patch))
+    own, others = [], []
     for name, m, patch in _variants(TWINS):
         if prop in m.get("properties", []) or not m.get("properties"):
-            jobs.append(("twins", name, patch))
+            (own if prop in (m.get("written_for"), m.get("made_for")) or name.startswith(prop + "-") else others).append(("twins", name, patch))
+    # every twin written for this property, plus a bounded, deterministic sample of the others that touch its files
+    # (the full cross product is `./vcheck --selftest twins`)
+    jobs += own + others[: max(0, 24 - len(own))]
     with ThreadPoolExecutor(max_workers=min(16, max(1, len(jobs)))) as ex:
         futs = {ex.submit(run_variant, patch, [prop], tier): (kind, name) for kind, name, patch in jobs}
         for f, (kind, name) in futs.items():
